@@ -18,6 +18,14 @@ Clause(ev, st) ==
                                ELSE IF \E j \in 1..Len(ev.got) : ev.got[j] # st.next + j - 1 THEN "infer.not-new"
                                ELSE "ok"
          [] ev.op = "clear" -> "ok"
+         [] ev.op = "declare" -> "ok"
+         [] ev.op = "evalvar" ->
+              LET exp == Expected(st.decl[ev.n], st)         \* the live registry at evaluation time
+                  got == {ev.res[j] : j \in 1..Len(ev.res)}
+              IN IF \E x \in got : x \notin exp THEN "query.extra"
+                 ELSE IF \E x \in exp : x \notin got THEN "query.missing"
+                 ELSE IF Len(ev.res) # Cardinality(exp) THEN "query.duplicate"
+                 ELSE "ok"
          [] ev.op = "query" ->
               LET exp == Expected(ev.T, st)
                   got == {ev.res[j] : j \in 1..Len(ev.res)}
